@@ -87,11 +87,19 @@ def lake_build(targets, log):
 
 
 def theorem_names(module_file):
-    names = []
+    """Theorem names relative to the root namespace `Tab` (nested `namespace X … end X` blocks are followed)."""
+    names, stack = [], []
     for l in open(module_file):
+        m = re.match(r"^namespace\s+([A-Za-z0-9_.]+)", l)
+        if m:
+            stack.append(m.group(1)); continue
+        m = re.match(r"^end\s+([A-Za-z0-9_.]+)", l)
+        if m and stack and stack[-1] == m.group(1):
+            stack.pop(); continue
         m = re.match(r"^\s*theorem\s+([A-Za-z0-9_.']+)", l)
         if m:
-            names.append(m.group(1))
+            ns = [x for x in stack if x != "Tab"]
+            names.append(".".join(ns + [m.group(1)]))
     return names
 
 
@@ -125,13 +133,18 @@ def axiom_audit(pid, modules, log):
         f = os.path.join(LEAN, *mod.split(".")) + ".lean"
         for n in theorem_names(f):
             thms.append((mod, n))
-    src = "".join("import %s\n" % m for m in modules)
-    src += "".join("#print axioms Tab.%s\n" % n for _, n in thms)
+    # one audit file per module: some Props modules declare helper names that clash when imported together
     os.makedirs(os.path.join(WORK, "audit"), exist_ok=True)
-    path = os.path.join(WORK, "audit", "Audit_%s_%d.lean" % (pid, os.getpid()))
-    open(path, "w").write(src)
-    rc, out = sh(["lake", "env", "lean", path], cwd=LEAN, timeout=1200)
-    os.remove(path)
+    rc, out = 0, ""
+    for k, mod in enumerate(modules):
+        src = "import %s\n" % mod
+        src += "".join("#print axioms Tab.%s\n" % n for m, n in thms if m == mod)
+        path = os.path.join(WORK, "audit", "Audit_%s_%d_%d.lean" % (pid, os.getpid(), k))
+        open(path, "w").write(src)
+        rc1, out1 = sh(["lake", "env", "lean", path], cwd=LEAN, timeout=1200)
+        os.remove(path)
+        rc = rc or rc1
+        out += out1 + "\n"
     results = {}
     cur = None
     text = out.replace("\n  ", " ")
@@ -457,7 +470,9 @@ def main(argv):
     else:
         race_fail = False
 
-    known = [f for f in load_known()["findings"] if f["property"] == pid and f.get("status") == "open"]
+    # an open finding is recorded under the property it violates; a stream of another property that runs the
+    # same oracle meets it too
+    known = [f for f in load_known()["findings"] if f.get("status") == "open" and f.get("match")]
     known_tags = {f["match"]: f for f in known}
 
     violations = []   # concrete failing inputs (oracle hits not listed as known)
@@ -488,7 +503,9 @@ def main(argv):
     out_lines = []
     for k in sorted(known_hit):
         if k in known_tags:
-            out_lines.append("KNOWN-FINDING: property=%s %s" % (pid, known_tags[k]["what"]))
+            if known_tags[k]["property"] == pid:
+                out_lines.append("KNOWN-FINDING: property=%s %s" % (pid, known_tags[k]["what"]))
+            # (a finding of another property met by a shared oracle is accepted silently: its own check reports it)
     for k in unlisted_known:
         # a classifier fired that the committed file does not list: that is a violation, not a finding
         p = write_replay(pid, "oracle", {"what": "classified as %s but not listed in known_findings.json" % k})
